@@ -172,7 +172,24 @@ func (d *D) Base(idx int, ctx *core.Ctx) *core.Scenario {
 		}
 		sc.Kind = "fmt-misuse"
 	}
-	if idx%5 == 4 {
+	if idx%29 == 11 {
+		// symbolic links: the named path is a link with a relative target, in another
+		// directory than the working directory; a file with the target's name may sit
+		// in the working directory as a bystander
+		real := source(r, ctx)
+		if len(real) > 3000 {
+			real = "x:=1\nprint   x\n"
+		}
+		m := modes[r.Intn(len(modes))]
+		sc.Files = []core.FileSpec{{Name: "src/real.evy", Mode: m, Content: real}, {Name: "src/link.evy", Link: "real.evy"}}
+		if r.Chance(0.6) {
+			sc.Files = append(sc.Files, core.FileSpec{Name: "real.evy", Mode: 0o644, Content: "print   \"bystander\"\n"})
+		}
+		sc.Argv = []string{"fmt", []string{"-w", "-w", "-c"}[r.Intn(3)], "src/link.evy"}
+		sc.Stdin = ""
+		sc.Kind = "fmt-symlink"
+	}
+	if idx%5 == 4 && sc.Kind != "fmt-symlink" {
 		// archive-focused scenario: several members, where formatting makes an
 		// early .evy member grow or shrink and other members (evy and non-evy) follow
 		grow := []string{
@@ -332,7 +349,14 @@ func (d *D) executeIn(dir string, sc *core.Scenario, faults []simos.Fault) *outc
 	for _, f := range sc.Files {
 		p := filepath.Join(dir, f.Name)
 		os.MkdirAll(filepath.Dir(p), 0o755) //nolint:errcheck
-		os.Chmod(p, 0o600)                  //nolint:errcheck // the user edits the file in place (same inode, same name)
+		if f.Link != "" {
+			os.Remove(p) //nolint:errcheck
+			if err := os.Symlink(f.Link, p); err != nil {
+				panic(err)
+			}
+			continue
+		}
+		os.Chmod(p, 0o600) //nolint:errcheck // the user edits the file in place (same inode, same name)
 		if err := os.WriteFile(p, []byte(f.Content), 0o600); err != nil {
 			panic(err)
 		}
@@ -453,9 +477,46 @@ func invariants(sc *core.Scenario, o *outcome, faults []simos.Fault) *core.Viola
 	// real process with a stack trace and status 2. For THIS property that is a
 	// process that died with a non-zero status: the file invariants below apply.
 	allFormatted, anyUnparsable := true, false
+	named := map[string]bool{}
+	for _, a := range sc.Argv {
+		named[a] = true
+	}
+	linkTarget := map[string]bool{} // files that a named symbolic link points to
+	for _, f := range sc.Files {
+		if f.Link != "" {
+			linkTarget[filepath.Join(filepath.Dir(f.Name), f.Link)] = true
+		}
+	}
+	contentOf := func(name string) string {
+		for _, g := range sc.Files {
+			if g.Name == name {
+				return g.Content
+			}
+		}
+		return ""
+	}
 	for i, f := range sc.Files {
 		st := o.files[i]
+		isLink := f.Link != ""
+		if isLink {
+			// what the path shows is the text of the file it points to
+			f.Content = contentOf(filepath.Join(filepath.Dir(f.Name), f.Link))
+		}
 		ref, parses := reference(f.Name, f.Content)
+		if !named[f.Name] && !isLink {
+			// not on the command line
+			where := map[string]any{"file": f.Name, "original_mode": fmt.Sprintf("%04o", f.Mode), "mode_after": fmt.Sprintf("%04o", st.mode)}
+			okState := st.exists && st.content == f.Content
+			if linkTarget[f.Name] && st.exists && parses && st.content == ref {
+				okState = true // writing through the link is a legitimate choice
+			}
+			if !okState || st.mode != f.Mode {
+				where["content_after"] = short(st.content)
+				return &core.Violation{Oracle: "I5-other-files-untouched", Signature: "I5:bystander-modified", Expected: "a file that is not named on the command line is left alone",
+					Observed: obs(where), Match: map[string]string{"oracle": "I5"}}
+			}
+			continue
+		}
 		if !parses {
 			anyUnparsable = true
 			allFormatted = false
@@ -496,7 +557,7 @@ func invariants(sc *core.Scenario, o *outcome, faults []simos.Fault) *core.Viola
 			return &core.Violation{Oracle: "I1-content", Signature: "I1:" + state, Expected: "the file holds its complete original text or the complete formatted text",
 				Observed: obs(w), Match: map[string]string{"oracle": "I1", "state": state}}
 		}
-		if st.mode != f.Mode {
+		if st.mode != f.Mode && !isLink {
 			sig := "I2:mode"
 			if faulted {
 				sig = "I2:mode-under-fault"
